@@ -45,7 +45,7 @@ Definition fset {A} (m : fmap A) (k : N) (v : A) : fmap A := fun x => if x =? k 
 
 (* the part of PolicyOptions the property is about *)
 Record policy := { p_ro : bool; p_enable : bool; p_cfg : option N (* RateLimitConfig: per-connection burst *);
-                   p_squash : N }.
+                   p_squash : N; p_maxsize : N (* MaxFileSize *); p_secure : bool }.
 
 Inductive wstate := WNone | WPending (u : N) | WHolding (u : N).
 
